@@ -147,6 +147,24 @@ def resolve_minmax(r, env):
     return r.subs(mp) if mp else r
 
 
+def _cmp_with_bounds(c, a, lo, hi):
+    """c is (a boolean combination of) comparisons  +-(a - k) {>, >=, ==, !=} 0  with k in {lo, hi}"""
+    from fractions import Fraction
+    if c.k in ('and', 'or'): return _cmp_with_bounds(c.a[0], a, lo, hi) and _cmp_with_bounds(c.a[1], a, lo, hi)
+    if c.k == 'not': return _cmp_with_bounds(c.a[0], a, lo, hi)
+    if c.k not in ('gt0', 'ge0', 'eq0', 'ne0'): return False
+    r = c.a[0]
+    if not r.is_poly(): return False
+    co = None; k0 = Fraction(0)
+    for mono, cf in r.num.t.items():
+        if mono == (): k0 += cf
+        elif len(mono) == 1 and mono[0] == (a, 1) and co is None: co = cf
+        else: return False
+    if co is None or co == 0: return False
+    root = -k0 / co / (r.den.const_value() if r.den.is_const() else 1) * (r.den.const_value() if r.den.is_const() else 1)
+    return root == Fraction(lo) or root == Fraction(hi)
+
+
 def region_views(p, fac, lo=0, hi=1):
     """views of a path over the order regions of the quantity `fac` relative to the constants lo < hi:
     list of (region, g, fix) where g is the clamped value of fac on that region (C(lo) | fac | C(hi)) and fix(x) rewrites a result
@@ -158,6 +176,9 @@ def region_views(p, fac, lo=0, hi=1):
     if len(at) != 1: return None
     (a,) = at
     conds = [c for c in cond_leaves(p) if isinstance(c, B) and c.k != 'const' and c.atoms() <= {a}]
+    # soundness of the witness evaluation below: a condition on the quantity must be a comparison of the quantity itself with lo or hi
+    # (a threshold elsewhere, say fac > 0.9, could fall between two witnesses of a region and go unnoticed)
+    if not all(_cmp_with_bounds(c, a, lo, hi) for c in conds): return None
     out = []
     for reg, ws in _witnesses(lo, hi):
         oks = []
